@@ -121,17 +121,27 @@ def make_case(geom, toks, tags=()):
             k = next((i for i in range(0, min(len(hx), len(mp[1])), 2) if hx[i:i + 2] != mp[1][i:i + 2]), min(len(hx), len(mp[1])))
             return (f"encoder model and implementation differ at byte {k // 2} (impl {len(hx) // 2} bytes, model {len(mp[1]) // 2}): "
                     f"impl …{hx[max(0, k - 8):k + 16]} model …{mp[1][max(0, k - 8):k + 16]} for `{case.op[:300]}`")
-        if len(mp) > 2 and mp[2] != "rt-ok" and geom.num_points > 0:
-            return f"model decoder on the model's stream does not return expectedGeometry ({mp[2]}) for `{case.op[:300]}`"
+        if len(mp) >= 5:
+            rt, dom, spec = mp[2], mp[3], mp[4]
+            if dom == "dom-octa-fails":
+                return f"float oracle hypothesis octaRowOK of seq_attr_roundtrip_normal is violated on `{case.op[:300]}`"
+            if dom == "dom-ok" and rt != "rt-ok":
+                return f"model decoder on the model's stream does not return `expected g opts` ({rt}) inside the theorems' domain for `{case.op[:300]}`"
+            if dom == "dom-ok" and spec == "spec-violation":
+                return f"`expected g opts` does not satisfy the executable specification RoundTripOK for `{case.op[:300]}`"
         return None
 
     def mtag(mout):
         if mout is None:
             return "seqenc:not-sequential-or-failed"
-        return "seqenc:" + (mout.split()[0] if mout else "?")
+        mp = mout.split()
+        return "seqenc:" + (mp[0] if mp else "?") + (":" + mp[3] if len(mp) > 3 else "")
 
     c = Case(op, model=model, expect=expect, tags=("seqenc",) + tuple(tags))
     c.mtag = mtag
+    if geom.num_points == 0:
+        # known finding of C01: geometries without points are not handled by the codec
+        c.sig_override = "empty-geometry"
     return c
 
 
